@@ -1002,16 +1002,20 @@ def find_block(fn_node, where):
         # the statements of one list from the first that starts with <start> up to (not including) the first later one
         # that starts with <end>
         p0, p1 = mb.group(1), mb.group(2)
+        seen_start = False
         for n in ast.walk(fn_node):
             for fld in ('body', 'orelse', 'finalbody'):
                 lst = getattr(n, fld, None)
                 if isinstance(lst, list):
                     for i_, st_ in enumerate(lst):
                         if isinstance(st_, ast.stmt) and ast.unparse(st_).startswith(p0):
+                            seen_start = True
                             for j_ in range(i_ + 1, len(lst)):
                                 if ast.unparse(lst[j_]).startswith(p1):
                                     return lst[i_:j_]
-                            raise VCError(f'anchor-missing: no statement starting with {p1!r} after {p0!r}')
+                            break       # (the same start text may open the block in another statement list)
+        if seen_start:
+            raise VCError(f'anchor-missing: no statement starting with {p1!r} after {p0!r}')
         raise VCError(f'anchor-missing: no statement starts with {p0!r}')
     mt = re.fullmatch(r'from:(.+):(\d+)', where, flags=re.S)
     if mt:
